@@ -359,6 +359,7 @@ fn classify(c: Case, m: &Measures, st: &DocStats) -> Case {
         .class_if(m.field_directives >= 3, "field-directives>=3")
         .class_if(st.vars_omitted > 0, "omitted-variable")
         .class_if(st.repeated_keys > 0, "repeated-key")
+        .class_if(st.reused_fragments > 0, "fragment-spread-in-several-places")
 }
 
 fn to_variables(vars: &IndexMap<String, CV>) -> Variables {
@@ -643,6 +644,81 @@ fn f1_applies(doc: &Doc, op: &OpDef, sch: &Sch, vars: &IndexMap<String, CV>) -> 
     !omitted.is_empty() && go(doc, sch, &op.sel, sch.root(op.kind).unwrap_or(""), &omitted, 0)
 }
 
+
+/// Documents over K built around fragments that are spread in several places at different depths and spread
+/// each other (F_i may spread F_j only for j > i, so no cycles): text, parsed by the reference parser.
+fn gen_reuse_text(s: &mut dyn Src) -> String {
+    fn body(s: &mut dyn Src, ty: &str, depth: usize, from: usize, conds: &[&str], out: &mut String) {
+        let n = 1 + s.choose(3);
+        for _ in 0..n {
+            let k = s.weighted(&[3, 3, 4, 1]);
+            let spreadable: Vec<usize> = (from..conds.len()).filter(|j| conds[*j] == ty).collect();
+            match k {
+                1 if depth > 0 => {
+                    let (name, sub) = if ty == "Item" { [("twin", "Item"), ("parts", "Item"), ("shop", "Shop")][s.choose(3)] } else { [("items", "Item"), ("owner", "Shop")][s.choose(2)] };
+                    out.push_str(name);
+                    out.push_str(" { ");
+                    body(s, sub, depth - 1, from, conds, out);
+                    out.push_str("} ");
+                }
+                2 if !spreadable.is_empty() => out.push_str(&format!("...F{} ", spreadable[s.choose(spreadable.len())])),
+                3 if depth > 0 => {
+                    out.push_str(if s.bool() { "... { " } else if ty == "Item" { "... on Item { " } else { "... on Shop { " });
+                    body(s, ty, depth - 1, from, conds, out);
+                    out.push_str("} ");
+                }
+                _ => out.push_str(if ty == "Item" { ["id ", "weight ", "label "][s.choose(3)] } else { ["id ", "cost ", "label "][s.choose(3)] }),
+            }
+        }
+    }
+    let k = 1 + s.choose(4);
+    let conds: Vec<&str> = (0..k).map(|_| if s.chance(1, 4) { "Shop" } else { "Item" }).collect();
+    let mut text = String::from("{ ");
+    let roots = s.choose(3);
+    if roots != 1 {
+        text.push_str("items { ");
+        body(s, "Item", 3, 0, &conds, &mut text);
+        text.push_str("} ");
+    }
+    if roots != 0 {
+        text.push_str("shops { ");
+        body(s, "Shop", 3, 0, &conds, &mut text);
+        text.push_str("} ");
+    }
+    text.push_str("}");
+    for (i, c) in conds.iter().enumerate() {
+        text.push_str(&format!(" fragment F{} on {} {{ ", i, c));
+        body(s, c, 2, i + 1, &conds, &mut text);
+        text.push('}');
+    }
+    text
+}
+
+/// (spreads of fragments in the operation and in reachable fragments, fragments spread from more than one place)
+fn spread_stats(doc: &Doc) -> (usize, usize) {
+    fn go(set: &SelSet, out: &mut Vec<String>) {
+        for i in &set.items {
+            match i {
+                Selection::Field(f) => go(&f.sel, out),
+                Selection::Inline(f) => go(&f.sel, out),
+                Selection::Spread(sp) => out.push(sp.name.s.clone()),
+            }
+        }
+    }
+    let mut all = vec![];
+    for d in &doc.defs {
+        match d {
+            Def::Op(o) => go(&o.sel, &mut all),
+            Def::Frag(f) => go(&f.sel, &mut all),
+        }
+    }
+    let mut names = all.clone();
+    names.sort();
+    names.dedup();
+    let multi = names.iter().filter(|n| all.iter().filter(|m| m == n).count() > 1).count();
+    (all.len(), multi)
+}
+
 pub fn run(ctx: &mut Ctx) {
     ctx.rule = "valid typed documents (aliases, repeated keys, inline and named fragments on every applicable condition, arguments as literals / variables / defaults) on \
                 (a) derive-built schema K whose fields declare complexity rules over arguments and child_complexity, (b) static schema Z, (c) random dynamic schemas; per \
@@ -701,6 +777,32 @@ pub fn run(ctx: &mut Ctx) {
         };
         let rendered = format!("schema K\nquery: {}\nvariables: {}\nreference: {}", p.text, vars_json(&p.vars), show_m(&p.m));
         classify(verdict(rendered, enforce(&ALL3, &p.m, false, &|l| run_k(&p, l))), &p.m, &td.stats)
+    });
+
+    // (a') K: fragments spread in several places, at different depths, spreading each other
+    ctx.stream("fragment-reuse", n * 2, 400, |s| {
+        let text = gen_reuse_text(s);
+        let doc = match vgql::refparse::parse_executable(&text, &vgql::refparse::Opts::default()) {
+            Ok(d) => d,
+            Err(e) => return Case::fail(text, format!("HARNESS: generated text does not parse: {:?}", e)),
+        };
+        let mut td = TypedDoc { doc, vars: IndexMap::new(), stats: DocStats::default(), op_name: None };
+        if !strip_typename(&mut td) {
+            return Case::discard("empty");
+        }
+        let p = match prepare(&ksch, &mut td.doc, &td.vars, None, &k_rules) {
+            Ok(p) => p,
+            Err(e) => return Case::fail(text, format!("HARNESS: not measurable: {}", e)),
+        };
+        if p.m.nesting > 30 || p.m.complexity.hi > 1_000_000_000 {
+            return Case::discard("beyond the default recursion limit");
+        }
+        let (spreads, multi) = spread_stats(&td.doc);
+        let rendered = format!("schema K\nquery: {}\nreference: {}", p.text, show_m(&p.m));
+        classify(verdict(rendered, enforce(&ALL3, &p.m, false, &|l| run_k(&p, l))), &p.m, &td.stats)
+            .nontrivial(multi > 0 && p.m.depth_via_named)
+            .class_if(multi > 0, "fragment-spread-in-several-places")
+            .class_if(spreads >= 4, "spreads>=4")
     });
     if f1 {
         let mut pcfg = cfg_k.clone();
